@@ -209,6 +209,17 @@ def check_case(case, ctx):
     ctx.count("kind:" + case["kind"])
     alg = ck.KwikSortRandom()
     scripted = ctx.scripted
+    if gen.digest(ds)[3] in "0123456":
+        # the algorithm object has already served on other inputs: a complete dataset under two or three other schemes, then
+        # under the scheme of this case (an object reused across datasets and schemes must not remember anything)
+        import random
+        rw = random.Random(gen.digest(ds))
+        warm = libx.mk_dataset([[[101], [102], [103]], [[102], [101, 103]], [[103], [102], [101]]])
+        names = rw.sample(sorted(ref.PRESETS), min(3, len(ref.PRESETS)))
+        for wsch in [ref.PRESETS[nm] for nm in names] + [sch]:
+            scripted.restart(script=[], tail="zero")
+            call(alg.compute_consensus_rankings, warm, libx.mk_scheme([list(v) for v in wsch]), True)
+        ctx.count("algorithm_objects_reused_from_other_datasets_and_schemes")
 
     def run(script):
         scripted.restart(script=script, tail="zero")
@@ -359,6 +370,7 @@ def reach(counters, tier, info):
                             ("coherent datasets", "coherent_datasets", 150 * k),
                             ("coherent datasets with >= 2 buckets and a tie", "coherent_with_tie_and_2_buckets", 40 * k),
                             ("datasets of identical rankings", "identical_datasets", 30 * k),
+                            ("KwikSort objects that had served on another dataset under other schemes", "algorithm_objects_reused_from_other_datasets_and_schemes", 200 * k),
                             ("datasets whose result depends on the pivots", "pivot_dependent_datasets", 30 * k),
                             ("datasets sorted again by the same object after an in-place mutation",
                              "runs_after_in_place_mutation_by_the_same_object", 300 * k),
